@@ -93,6 +93,8 @@ unsafe impl GlobalAlloc for Monitor {
             GUARD_BROKEN.fetch_add(1, Relaxed);
         }
         (p.sub(8) as *mut u64).write_unaligned(DEAD);
+        // poison: a read through a dangling reference sees 0xDD bytes instead of plausible data
+        std::ptr::write_bytes(p, 0xDD, size);
         LIVE_ALL.fetch_sub(1, Relaxed);
         if in_class(size, align) {
             LIVE_CLASS.fetch_sub(1, Relaxed);
